@@ -21,9 +21,28 @@ def _init() -> None:
         pass
 
 
+def _guard(fn, task):
+    """An exception escaping a worker is reported as a violation of kind 'exception' (never a crashed check):
+    explorers other than C14/C15 do not expect the implementation to raise on the inputs they generate."""
+    try:
+        return fn(task)
+    except Exception as ex:  # noqa: BLE001
+        import traceback
+
+        from mc import core
+
+        p = core.Part()
+        tb = traceback.extract_tb(ex.__traceback__)
+        where = next((f"{f.filename.split('/')[-1]}:{f.lineno}" for f in reversed(tb) if "/han/" in f.filename), "harness")
+        p.viol("exception", f"exception:{type(ex).__name__}:{where}",
+               f"{type(ex).__name__}: {ex} escaped at {where} while exploring task {task!r:.200}",
+               {"kind": "exception", "task": repr(task)[:2000], "traceback": traceback.format_exc()[-3000:]}, size=0)
+        return p
+
+
 def _call(arg):
     idx, fn, task = arg
-    return idx, fn(task)
+    return idx, _guard(fn, task)
 
 
 def pmap(fn, tasks, seed: int = 0, procs: int | None = None):
@@ -33,7 +52,7 @@ def pmap(fn, tasks, seed: int = 0, procs: int | None = None):
     tasks = list(tasks)
     n = procs or PROCS
     if n <= 1 or len(tasks) <= 1:
-        return [fn(t) for t in tasks]
+        return [_guard(fn, t) for t in tasks]
     order = list(range(len(tasks)))
     random.Random(seed).shuffle(order)
     out = [None] * len(tasks)
